@@ -21,21 +21,22 @@ from vlib import cstr, cz, cbool, clist  # noqa: E402
 from harness import gen, drive, c17_gen  # noqa: E402
 
 CLAIM = {
-    "text": "Unbounded Coq theorems about an executable model of create_nxgraph and the graph searches: an edge with key "
-            "(table, label) is in the graph exactly when the row is included, active (or status ignored), not a pipe "
-            "with a closed valve, and both ends are kept; keys are unique (one edge per branch); a closed pi valve "
-            "removes its pipe's edge; a closure that is stable is exactly the set reachable over the edges (components "
-            "= reachability classes); a stable relaxation gives the minimum over all walks of the summed lengths "
-            "(attained and minimal). The model is tied to create_graph.py / graph_searches.py / networkx by an exact "
-            "correspondence (edge multiset, nodes, components, unsupplied set, distances) evaluated inside Coq, where "
-            "stability of every computed closure / relaxation is checked too.",
-    "note": "No clause is refuted on the current tree (515c489, bec5791, 190d51d repaired the pi-valve edge, the slack "
-            "set of unsupplied_junctions and the ignored compressor keywords; reverts are re-detected). One known finding "
-            "remains: notravjunctions next to an out-of-service junction leave the adjacency inconsistent (not modelled, "
-            "reported by a monitor). graph_components_eq_islands bridges this model's reachability to C04's HReach / "
-            "search_hyd under the side condition that every graph edge is an in-service, undirected, non "
-            "flow-return-connect branch of the pit; the solver is additionally compared on real pipeflow runs. Every "
-            "topology query is checked to leave the user tables bit-identical. Theorems closed under the global context.",
+    "text": "13 unbounded Coq theorems about an executable model of create_nxgraph and the graph searches: an edge with key "
+            "(table, label) is in the graph exactly when the row is included (bool or label list), is no pipe-attached "
+            "valve, is active (or status ignored), is not a pipe with a closed valve, and both ends are kept; keys are "
+            "unique (one edge per branch); a stable closure is exactly the set reachable over the edges; for tables "
+            "whose branches are in service, undirected and no flow-return connection, graph reachability from the "
+            "supplied junctions equals what the solver's connectivity search marks on its own pit (bridge to C04's "
+            "search_hyd / mk_branches); unsupplied = not reachable from the pressure-fixing elements; a stable "
+            "relaxation gives the minimum over all walks. Tied to create_graph.py / graph_searches.py / networkx by an "
+            "exact correspondence (edge multiset, nodes, components, unsupplied set, raises, distances) inside Coq, which "
+            "also checks stability of every computed closure / relaxation and the slack set.",
+    "note": "One known finding remains: notravjunctions next to an out-of-service junction leave the adjacency inconsistent "
+            "(excluded from the model by notrav_clash, reported by a monitor). Directed branches and flow-return-only "
+            "branches are edges of the graph but no hydraulic connections of the solver: excluded by hypothesis in the "
+            "islands theorems, counted by the solver monitor. networkx (components, Dijkstra) is an oracle. Agreement "
+            "with real pipeflow runs (NaN pressure = unsupplied + out of service) and purity of every topology call are "
+            "monitored, not proved. All theorems closed under the global context (no axioms).",
     "technique": "Coq proof over hand-written model + exact model/implementation correspondence + solver monitor",
     "design": "DESIGN.md 4/C18 + design_notes/C18.md",
 }
